@@ -191,6 +191,12 @@ func (w *w4) setup() {
 			if seedR.IntN(6) == 0 {
 				mp.ErrorCode = 5 // LEADER_NOT_AVAILABLE
 			}
+			if nb > 1 && seedR.IntN(5) == 0 {
+				// a degraded partition: a second replica that is out of sync and offline
+				other := (lead + 1) % int32(nb)
+				mp.Replicas = []int32{lead, other}
+				mp.OfflineReplicas = []int32{other}
+			}
 			mt.Partitions = append(mt.Partitions, mp)
 			w.truth[tpKey(name, p)] = seedR.IntN(nb)
 		}
